@@ -34,7 +34,52 @@ def alphabet(k, seed=0, extra=0):
     return al
 
 
+# ---- long, realistic recordings (names start with '@'; usable wherever a word is) ---------------------------
+# real-valued 1/f noise + a bursty, asymmetric, period-jittered oscillation + slow drift; fixed seeds.  They exist to reach
+# code paths keyed on SIZE (more than 255 / 512 / 1000 cycles, more than 65536 samples, flanks of 100 samples, ...)
+LONG = {
+    '@A': dict(n=33000, period=50, seed=11),      # ~660 cycles           (declared as fs = 500, band 8-12)
+    '@B': dict(n=70000, period=50, seed=12),      # ~1400 cycles, > 2**16 samples (fs = 1000, band 13-30)
+    '@C': dict(n=30517, period=105, seed=13),     # non-integer rate      (fs = 1017.25, band 8.1-12.9)
+    '@D': dict(n=40000, period=200, seed=14),     # 200 samples per cycle (fs = 2000, band 8-12)
+    '@E': dict(n=6000, period=50, seed=15),       # 120 cycles            (fs = 500, band 8-12)
+}
+_LONG_CACHE = {}
+
+
+def long_signal(name):
+    if name not in _LONG_CACHE:
+        c = LONG[name]
+        n, period = c['n'], c['period']
+        rng = np.random.RandomState(c['seed'])
+        X = np.fft.rfft(rng.standard_normal(n))
+        f = np.arange(len(X), dtype=float)
+        f[0] = 1.
+        noise = np.fft.irfft(X / np.sqrt(f), n)
+        noise /= noise.std()
+        env = np.zeros(n)
+        i = 0
+        while i < n:
+            on = int(rng.randint(2, 14) * period)
+            off = int(rng.randint(1, 9) * period)
+            env[i:i + on] = rng.uniform(.6, 1.6)
+            i += on + off
+        k = np.ones(period // 2) / (period // 2)
+        env = np.convolve(env, k, mode='same')
+        jitter = np.cumsum(rng.standard_normal(n)) * (.002 / np.sqrt(period))
+        ph = 2 * np.pi * (np.arange(n) / period + jitter)
+        osc = np.sin(ph) + .25 * np.sin(2 * ph + .7)
+        t = np.arange(n) / n
+        _LONG_CACHE[name] = 2. * env * osc + .6 * noise + .5 * np.sin(2 * np.pi * 3 * t)
+    return _LONG_CACHE[name].copy()
+
+
 def word_signal(word, scale=1.0, offset=0.0, negate=False):
+    if word.startswith('@'):
+        x = long_signal(word)
+        if negate:
+            x = -x
+        return x * scale + offset
     x = np.array(sum((LETTERS[c] for c in word), []), dtype=float)
     if negate:
         x = -x
@@ -52,6 +97,11 @@ def sensitive_signal(i):
     x = word_signal(w)
     n = np.arange(len(x))
     return x + 2.0 * (((n * n * (3 + k) + n * (7 + 2 * k) + k) % 7) - 3.0)
+
+
+def long_cases(words, variants):
+    """Cases [word, devs] for the long recordings: every word with its rate declaration + each variant (tuple of deviations)."""
+    return [[w, tuple(sorted((LONG_DECL[w],) + tuple(v)))] for w in words for v in variants]
 
 
 def word_dims(letters, length):
@@ -99,10 +149,16 @@ DEVIATIONS = {
     'fsnp': {'argtypes': 'numpy'},          # fs = np.int64(64), f_range = (np.float64(6), np.float64(14))
     'strided': {'layout': 'strided'},      # the signal is a non-contiguous view into a larger array
     'int': {'layout': 'int'},              # integer dtype (ADC counts)
+    'L500a': {'fs': 500, 'f_range': (8, 12)},           # rate / band declarations for the long recordings (LONG)
+    'L1000b': {'fs': 1000, 'f_range': (13, 30)},
+    'L1017': {'fs': 1017.25, 'f_range': (8.1, 12.9)},
+    'L2000a': {'fs': 2000, 'f_range': (8, 12)},
     'int16big': {'layout': 'int16big'},    # int16 at ~90 % of full scale (C09 only: arithmetic wraps identically on both sides)
 }
 # deviations that exclude each other (same option)
-GROUPS = [('driftdn', 'driftup', 'dc5', 'neg'), ('strided', 'int', 'int16big', 'readonly'), ('fsfloat', 'fsnp', 'fs128', 'band5_12', 'band7_16'), ('nc2', 'nc3', 'nc4', 'ns.5', 'ns.375'), ('b0', 'b1', 'b5', 'b12'), ('thr1', 'nothr'), ('band5_12', 'band7_16', 'fs128'),
+LONG_DEVS = ('L500a', 'L1000b', 'L1017', 'L2000a')
+LONG_DECL = {'@A': 'L500a', '@B': 'L1000b', '@C': 'L1017', '@D': 'L2000a', '@E': 'L500a'}
+GROUPS = [('driftdn', 'driftup', 'dc5', 'neg'), ('strided', 'int', 'int16big', 'readonly'), ('fsfloat', 'fsnp', 'fs128', 'band5_12', 'band7_16') + LONG_DEVS, ('nc2', 'nc3', 'nc4', 'ns.5', 'ns.375'), ('b0', 'b1', 'b5', 'b12'), ('thr1', 'nothr'), ('band5_12', 'band7_16', 'fs128'),
           ('x1024', 'x2-10', 'x.125', 'x2-40', 'x2+40')]
 
 
@@ -115,7 +171,7 @@ def compatible(devs):
 
 def option_sets(max_dev, menu=None):
     """All option sets (tuples of deviation names, sorted) with at most max_dev deviations."""
-    menu = [d for d in DEVIATIONS if d != 'int16big'] if menu is None else list(menu)
+    menu = [d for d in DEVIATIONS if d != 'int16big' and d not in LONG_DEVS] if menu is None else list(menu)
     out = [()]
     for k in range(1, max_dev + 1):
         for c in itertools.combinations(menu, k):
